@@ -7,6 +7,7 @@
 package main
 
 import (
+	"encoding/json"
 	"flag"
 	"fmt"
 	"os"
@@ -41,9 +42,52 @@ func main() {
 				fmt.Printf("   %-7s [%s] %s\n", ri.ID, ri.Engine, ri.Title)
 			}
 		}
+	case "anchors":
+		// regenerates anchor_sigs.json from the tree given as argument (default /repo): every function the rules anchor
+		// on, with its package, signature (without receiver) and direct callers
+		repo := "/repo"
+		if len(os.Args) > 2 {
+			repo = os.Args[2]
+		}
+		out := map[string]anchorSig{}
+		for _, cfg := range []string{"", "poll_opt"} {
+			p, err := Load(repo, cfg)
+			if err != nil {
+				fmt.Fprintln(os.Stderr, err)
+				os.Exit(2)
+			}
+			curProg, inlining = p, false
+			paramBind = map[*ssa.Parameter]ssa.Value{}
+			requestedAnchors = map[string]*ssa.Function{}
+			dry := &Ctx{P: p, counted: map[string]int{}, funcs: map[string]bool{}}
+			for _, rid := range sortedRuleIDs() {
+				dry.rule = rules[rid]
+				func() {
+					defer func() { recover() }()
+					rules[rid].Run(dry)
+				}()
+			}
+			for k, f := range requestedAnchors {
+				if p.byName[k] != f {
+					continue // found through the fallback: do not record
+				}
+				out[k] = anchorSig{Pkg: calleePkg(f), Sig: sigOf(f), Callers: p.directCallers(f)}
+			}
+		}
+		b, _ := json.MarshalIndent(out, "", " ")
+		fmt.Println(string(b))
 	default:
 		usage()
 	}
+}
+
+func sortedRuleIDs() []string {
+	var ids []string
+	for rid := range rules {
+		ids = append(ids, rid)
+	}
+	sort.Strings(ids)
+	return ids
 }
 
 func usage() {
